@@ -222,7 +222,8 @@ def m_copy_from_slice(eng, call, args):
     src = val(eng, call, args[1])
     call["pre"] = ("len_eq", eng.length(call["state"], dst_old), eng.length(call["state"], src))
     # the destination keeps its own length; contents become the source
-    eng.assign_through(call, args[0], mk("copied", src, eng.length(call["state"], dst_old)))
+    dl = eng.length(call["state"], dst_old)
+    eng.assign_through(call, args[0], src if dl is eng.length(call["state"], src) else mk("copied", src, dl))
     return mk("unit")
 
 
@@ -583,8 +584,9 @@ def elem_of(eng, call, it):
     if op == "iter":
         src, byref = it.args
         e = mk("elem", src)
-        if src.op == "agg" and src.args[0] == "array" and len(src.args) == 2:
-            e = src.args[1]
+        if src.op == "agg" and src.args[0] == "array" and 2 <= len(src.args) <= 9:
+            # array literal: keep the elements apart (each is absorbed / used on its own)
+            e = src.args[1] if len(src.args) == 2 else mk("oneof", *src.args[1:])
         return mk("refv", e) if byref else e
     if op == "range_iter":
         return mk("range_elem", it.args[0], it.args[1], it.args[2])
@@ -666,7 +668,9 @@ def m_enumerate(eng, call, args):
 def m_peek(eng, call, args):
     it = val(eng, call, args[0])
     e = elem_of(eng, call, it)
-    origin = (call["frame"].key, call["block"])
+    # peek() yields the element the iterator stands on; rules that need "the first element" additionally
+    # check that nothing consumed the iterator before (C05.R3)
+    e = mk("peeked", e)
     return two_way("std::option::Option", [
         (0, "None", [], [(mk("iter_empty", it), "eq", 1)]),
         (1, "Some", [mk("refv", e)], [(mk("iter_empty", it), "eq", 0)]),
@@ -858,6 +862,13 @@ def rng_draw(eng, call, rng_ptr, self_ty, what, outbuf=None):
     fill_bytes on a scratch buffer; anything else is a fresh atom rng(kind, site)."""
     g = None
     if self_ty:
+        # `impl RngCore for &mut R` forwards to R
+        t = self_ty[0]
+        while t.startswith("&"):
+            t = t[1:].lstrip()
+            if t.startswith("mut "):
+                t = t[4:]
+        self_ty = (t, self_ty[1])
         g = eng.find_impl_fn("fill_bytes", self_ty[0], self_ty[1], trait_contains="RngCore")
     if g is not None:
         state = call["state"]
